@@ -100,7 +100,9 @@ pub fn family(name: &str) -> Family {
             // a hierarchy that is still EMPTY when the master key is stored and reloaded, and that
             // is emptied again by deletions: levels are added afterwards and keys for the upper
             // levels must cover the lower ones
-            init: ops(&["add-dim A anarchy", "add A::x classic", "add-dim H hierarchy", "update", "keygen A::x"]),
+            // (three dimensions: a key generated while H is empty must still hold the combinations of
+            // its attribute with the third dimension)
+            init: ops(&["add-dim A anarchy", "add A::x classic", "add-dim B anarchy", "add B::u classic", "add-dim H hierarchy", "update", "keygen A::x"]),
             alphabet: ops(&[
                 "rt-msk",
                 "del-dim H",
@@ -118,7 +120,7 @@ pub fn family(name: &str) -> Family {
                 "refresh 1 keep",
                 "refresh 1 drop",
             ]),
-            enc_menu: vec!["A::x", "H::lo", "H::mid", "H::hi", "H::l0", "A::x && H::lo", "A::x && H::hi", "*"],
+            enc_menu: vec!["A::x", "H::lo", "H::mid", "H::hi", "H::l0", "A::x && H::lo", "A::x && H::hi", "A::x && B::u", "B::u && H::hi", "*"],
             tags: Tags { open: "C03.a", deny: "C03.a" },
             rt_bound: 2,
             max_usks: 3,
@@ -556,7 +558,13 @@ pub fn run_transition(fam: &Family, hist: &[Op], op: &Op) -> Option<Outcome> {
         let lens: HashSet<usize> = u.model.held.values().map(Vec::len).collect();
         lens.len() > 1
     });
-    Some(Outcome { key: state_key(&w, new_hist_rt), failures: std::mem::take(&mut w.failures), ok, counts: w.counts.clone(), partial_chains: partial })
+    // In-memory state that is not part of the serialised form (a counter, a cache inside a key
+    // object) is reset by a reload and rebuilt by the operations that follow it: "just reloaded"
+    // and "operated on since the reload" are different states even when they decode alike, so
+    // `... ; del X ; rt-msk` is not merged with `... ; rt-msk ; del X`.
+    let just_reloaded = matches!(op, Op::RtMsk | Op::Restore);
+    let key = format!("{}|just-reloaded={}", state_key(&w, new_hist_rt), just_reloaded && new_hist_rt > 0);
+    Some(Outcome { key, failures: std::mem::take(&mut w.failures), ok, counts: w.counts.clone(), partial_chains: partial })
 }
 
 /// The state key without provenance (what a round-trip must preserve).
@@ -859,6 +867,37 @@ pub fn run_path(run: &mut Run, fam_name: &str, path: &[Op], owned: &[&str]) -> (
         }
     }
     (steps, w.counts.clone())
+}
+
+/// A long history of which only every `every`-th step and the last `tail` steps are fully
+/// checked; the others are executed with the lock-step comparison of the decoded master key and
+/// user keys only (Mode::Replay), which is what makes hundreds of steps affordable.
+pub fn run_path_sparse(run: &mut Run, fam_name: &str, path: &[Op], owned: &[&str], every: usize, tail: usize) -> u64 {
+    let fam = family(fam_name);
+    let mut w = World::new(&fam.enc_menu, fam.tags.clone());
+    w.max_usks = fam.max_usks.max(4);
+    for op in &fam.init {
+        w.apply(op, Mode::Replay);
+    }
+    let mut steps = 0u64;
+    for (i, op) in path.iter().enumerate() {
+        if !w.enabled(op) {
+            continue;
+        }
+        let full = i % every == every - 1 || i + tail >= path.len();
+        w.apply(op, if full { Mode::Check } else { Mode::Replay });
+        steps += 1;
+        let fails = std::mem::take(&mut w.failures);
+        if let Some(f) = fails.iter().find(|f| owned.iter().any(|p| f.clause.starts_with(p)) && classify(f).is_none()) {
+            let ops: Vec<String> = path[..=i].iter().map(|o| o.to_string()).collect();
+            run.report(None, &f.clause, &format!("long sparse path, step {} ({}): {}", i + 1, op, f.msg), json!({"engine": "histex", "family": fam.name, "config": crate::wire::NAME, "ops": ops}));
+            break;
+        }
+        if fails.iter().any(|f| !BENIGN.iter().any(|b| f.clause.starts_with(b)) && classify(f).is_none()) {
+            break;
+        }
+    }
+    steps
 }
 
 /// Replays one recorded history without the explorer; returns the failures of its last step.
